@@ -224,7 +224,9 @@ func Run(sc *Scenario) *Obs {
 	res := make([]*stack.Resp, n)
 	done := make(chan int, n)
 	for i := 0; i < n; i++ {
-		go func(i int) { res[i] = stack.Do(s.Addr, raw, 5*time.Second); done <- i }(i)
+		// large uploads get time in proportion (a cold or loaded machine moves tens of MiB through two loopback hops slowly)
+		to := 5*time.Second + time.Duration(len(reqBody)>>20)*3*time.Second
+		go func(i int) { res[i] = stack.Do(s.Addr, raw, to); done <- i }(i)
 	}
 	for i := 0; i < n; i++ {
 		<-done
